@@ -178,7 +178,7 @@ def _serve_once(ch, backend, cfg, scratch):
             # an earlier, ordinary connection of the same client; the judged connection then
             # offers that TLS session for resumption
             ep0 = raw_connect(net, HOST, 1965, c2s=WholePolicy(0.001), s2c=WholePolicy(0.001))
-            peer0 = RawPeer(net, ep0, [("send", url.encode() + b"\r\n")], tls_ctx=fx.client_ctx(None, False),
+            peer0 = RawPeer(net, ep0, [("send", url.encode() + b"\r\n")], tls_ctx=fx.client_ctx(None, bool(cfg.get("client_tls12"))),
                             name="earlier")
             for _ in range(400):
                 await asyncio.sleep(0.25)
@@ -334,7 +334,7 @@ def run_one(ch):
         cfg["s2c_mode"] = 0       # no size-dependent draws: ticket lengths are not a function of the tape
         cfg["deadline"] += 100.0
         res.stats["client_resumes_tls_session"] += 1
-    if reader != "client" and not cfg.get("resume") and ch.chance("client_tls12", 0.12):
+    if reader != "client" and ch.chance("client_tls12", 0.12):
         # a client that negotiates TLS 1.2 (the minimum the servers accept)
         cfg["client_tls12"] = True
         res.stats["client_speaks_tls12"] += 1
